@@ -21,6 +21,9 @@ func c09Binding(tid int) []byte {
 	return m.Raw
 }
 
+// c09Last describes the input the live campaigns are feeding right now (for the real-time watchdog's report)
+var c09Last = "(decoder / dispatcher campaigns)"
+
 func TestVerif_C09(t *testing.T) { //nolint:cyclop
 	rng := verifsim.NewRNG(verifsim.Seed() + 99)
 	col := verifsim.NewCollector("C09r", "C09Check")
@@ -28,7 +31,7 @@ func TestVerif_C09(t *testing.T) { //nolint:cyclop
 	thorough := verifsim.Thorough()
 	// a busy loop cannot be seen from inside a synctest bubble: a real-time watchdog reports it
 	watchdog := time.AfterFunc(120*time.Second, func() {
-		fmt.Println("VERIF-VIOLATION C09 an endpoint is spinning or wedged: the harness made no progress for 120 s of real time")
+		fmt.Printf("VERIF-VIOLATION C09 an endpoint is spinning or wedged: the harness made no progress for 120 s of real time; the input being handled: %s\n", c09Last)
 		os.Exit(3)
 	})
 	defer watchdog.Stop()
@@ -168,7 +171,29 @@ func TestVerif_C09(t *testing.T) { //nolint:cyclop
 			}
 		}
 		tid := 5000
-		for _, buf := range verifsim.Hostile(rng, nstream) {
+		inputs := verifsim.Hostile(rng, nstream)
+		// complete, well-framed frames around and beyond the read buffer (InboundMTU, 1600 by default): the server drops
+		// what does not fit and goes on serving that very connection
+		complete := map[int]bool{}
+		for _, l := range []int{1500, 1592, 1595, 1596, 1597, 1600, 1604, 2000, 4096, 20000, 65000, 65535} {
+			cd := append([]byte{0x40, 0x01, byte(l >> 8), byte(l)}, rng.Bytes(l)...)
+			for len(cd)%4 != 0 {
+				cd = append(cd, 0)
+			}
+			complete[len(inputs)] = true
+			inputs = append(inputs, cd)
+			if l%4 == 0 && l <= 65000 {
+				m := new(stun.Message)
+				m.Type = stun.MessageType{Method: stun.MethodSend, Class: stun.ClassIndication}
+				copy(m.TransactionID[:], rng.Bytes(12))
+				m.WriteHeader()
+				m.Add(stun.AttrData, rng.Bytes(l-4))
+				complete[len(inputs)] = true
+				inputs = append(inputs, append([]byte{}, m.Raw...))
+			}
+		}
+		for idx, buf := range inputs {
+			c09Last = fmt.Sprintf("stream listener, one connection, %d bytes starting % x", len(buf), buf[:min(len(buf), 24)])
 			cEnd, sEnd := verifsim.NewStreamPair(&net.TCPAddr{IP: net.IPv4(10, 0, 0, 2), Port: 40000 + tid%20000}, &net.TCPAddr{IP: net.IPv4(10, 0, 0, 1), Port: 3478})
 			ln.Inject(sEnd)
 			// arbitrary segmentation
@@ -187,7 +212,7 @@ func TestVerif_C09(t *testing.T) { //nolint:cyclop
 			tid++
 			sameAlive := probe(cEnd, sEnd, tid)
 			sameOK := sameAlive || sEnd.IsClosed() // an invalid frame ends that connection only - or it keeps serving
-			if !sameOK {
+			if !sameOK && !complete[idx] {
 				// an incomplete frame is pending: the probe bytes were taken as its continuation; that is neither a crash nor a wedge
 				sameOK = true
 			}
@@ -195,7 +220,11 @@ func TestVerif_C09(t *testing.T) { //nolint:cyclop
 			ln.Inject(s2)
 			tid++
 			otherAlive := probe(c2, s2, tid)
-			col.Add("live-stream", "live", otherAlive, fmt.Sprintf("KLive 2 %s false false %s %s true", verifsim.CoqBytes(buf),
+			shown := buf
+			if len(shown) > 600 {
+				shown = shown[:64] // an oversized frame: its header and the first bytes identify it (length field at offset 2)
+			}
+			col.Add("live-stream", "live", otherAlive, fmt.Sprintf("KLive 2 %s false false %s %s true", verifsim.CoqBytes(shown),
 				verifsim.CoqBool(sameOK), verifsim.CoqBool(otherAlive)))
 			_ = cEnd.Close()
 			_ = c2.Close()
